@@ -63,7 +63,8 @@ where
         where
             A: serde::de::SeqAccess<'d>,
         {
-            let mut array = Vec::with_capacity(seq.size_hint().unwrap_or_default());
+            // the hint comes from the (untrusted) input, never pre-allocate more than a page for it
+            let mut array = Vec::with_capacity(seq.size_hint().unwrap_or_default().min(4096));
             while let Some(elem) = seq.next_element::<PossiblyUnknown<T>>()? {
                 if let PossiblyUnknown::Some(elem) = elem {
                     array.push(elem)
